@@ -25,7 +25,7 @@ LEVEL_TEXT = ('Lean 4 theorems (Mathlib matrices), for every basis matrix B with
               'normalisation and caller coordinates on which the modes are linearly independent: fit(compose c) = c; fit(remove opd) = 0; '
               'remove is idempotent; remove(compose c) = 0; the residual is orthogonal to the removed modes and no other coefficient vector '
               'leaves a smaller sum of squares; permuting the requested modes permutes the coefficients. The executable model (basis from the '
-              'C11 mode model, Cramer solution of the normal equations, compose, remove — wired through the REGENERATED call-site argument projections) is proved equal to these abstract objects; IsUnit det(BtB) is proved equivalent to linear independence of the sampled modes over ordered fields; remove leaves samples outside the mask untouched; a '
+              'C11 mode model, Cramer solution of the normal equations, compose, remove — wired through the REGENERATED call-site argument projections and, for zernike_remove, the REGENERATED returned expression opd - einsum(basis, coeffs) with its data flow (Gen.removeResidual; remove_subtracts_composed_fit)) is proved equal to these abstract objects; IsUnit det(BtB) is proved equivalent to linear independence of the sampled modes over ordered fields; remove leaves samples outside the mask untouched; a '
               'coefficient vector for zernike_compose with the coefficients at the (regenerated) positions of the requested modes composes '
               'B·c; the OPD selection `np.where(mask != 0, opd, 0)` of zernike_fit (89e13b8) is REGENERATED (Gen.fitSelect) and consumed by the model and the driver: samples outside the mask do not influence the fit, by the selection itself and for any scalar type incl. Float NaN/inf (fit_ignores_outside_mask); the two einsum contractions are REGENERATED from their subscript strings (Gen.fitContract / Gen.removeContract: the model\'s B·c is the generated contraction, and the generated fit contraction applied to the transposed pseudo-inverse is the abstract fit), the sample numbering of opd.ravel() and basis.reshape(k,-1) is regenerated with its order and proved to agree (C order on both sides); and three concrete Zernike bases (two unnormalised over Q with an all-true mask; one with the DEFAULT normalisation over R on a partial mask: modes [1,2,3], a masked-out sample, det(BtB) = 36) (one ray; a 2x2 array with cosine, sine and radial modes) satisfy the independence hypothesis. fit, compose and remove are linear maps (fit_compose_remove_linear). The formula (BᵀB)⁻¹Bᵀ used for np.linalg.pinv(basis) is proved to satisfy the four Penrose equations and to be the ONLY matrix X with BXB = B and (BX)ᵀ = BX (pinv_formula_is_moore_penrose), so what is trusted is NumPy\'s documented contract "pinv returns the Moore-Penrose inverse". PARTIAL: that np.linalg.pinv(basis)·opd is the '
               'normal-equation solution, and that the code builds exactly this basis, are checked by correspondence only.')
@@ -33,7 +33,7 @@ LEVEL_NOTE = ('Sign convention inherited from C11: odd-j modes are -sin(|m| thet
               'every call with the Lean model run at Float; basis/compose values to 1e-8, fit/remove to 1e-10 x max(1, cond²) — the bound on the Float model\'s own rounding — while '
               'the property itself is judged on the library\'s results at 1e-12 x cond); the harness\'s numpy reference for conditioning and coordinates; float rounding; generator coverage (general histories of 6-9 calls; the ill-conditioned, medium-conditioned, duplicate-mode and non-finite-outside classes have 1-4 calls each; layouts, dtypes).')
 TECHNIQUE = 'Lean 4 proof over Mathlib matrices + executable Lean model of basis/fit/compose/remove with differential correspondence on call histories'
-GEN = ['ZernikeCalls', 'ZernikeR', 'Mesh', 'Util', 'Helper', 'Helper20', 'Hex', 'Extent', 'FieldAccum', 'FieldDispatch', 'FieldIdx', 'FieldMerge']      # every Gen module imported transitively
+GEN = ['ZernikeCalls', 'ZernikeR', 'Mesh', 'Util', 'UtilWindow', 'UtilCentroid', 'Helper', 'Helper20', 'Hex', 'Extent', 'FieldAccum', 'FieldDispatch', 'FieldIdx', 'FieldMerge']      # every Gen module imported transitively
 OPS = ['C11', 'C12']
 RULE = ('extra cases: a mode requested twice (observed: remove unchanged, coefficient split) and OPDs with NaN / +-inf outside the mask (must give exactly the result of zeros there); cases = call histories of 6-9 compose/fit/remove calls in one process on one mask (circular / hexagonal / segmented / off-centre / '
         'irregular weighted, sizes 9..22 even and odd; all built by the harness, not by the library): same modes with default then caller-supplied (shifted, rotated) coordinates, both '
@@ -47,7 +47,7 @@ TRUSTED = ['np.linalg.pinv returns the Moore-Penrose inverse (NumPy\'s documente
            'np.einsum contractions as matrix-vector products; ndarray.ravel() / reshape(k, -1) enumerate samples in C order']
 UNPROVEN = ['zernike_fit returns the normal-equation (least-squares) solution: rests on the pinv contract — correspondence only',
             'zernike_basis / zernike_compose evaluate the C11 mode model at the requested Noll indices and coordinates: the argument bindings and the '
-            'position -> Noll index map are regenerated from the source (Gen/ZernikeCalls), the values are compared on every call — no theorem about the Python code itself']
+            'position -> Noll index map are regenerated from the source (Gen/ZernikeCalls), the values are compared on every call — no theorem about the Python code itself (zernike_remove: its data flow coeffs/basis -> einsum -> returned expression IS regenerated, Gen.removeResidual, and proved to be opd minus the composed fit: remove_subtracts_composed_fit)']
 ASSUMPTIONS = ['the OPD is finite at every MASKED sample (content outside the mask — finite, NaN or ±inf — is generated and must not matter)',
                'modes linearly independent on the mask (IsUnit det(BᵀB)); numerically: the property is judged on the real functions for cond(B) <= 1e9 with '
                'tolerance 1e-12 x cond x scale (what a backward-stable least-squares solver delivers); the Lean model (Cramer at Float) is compared for k <= 6, cond <= 1e4',
